@@ -682,6 +682,33 @@ def replay_C04(ctx):
     return check_C04(ctx)
 
 
+def c06_urls(ctx):
+    """net/url against the model's has_scheme / host_of on generated and malformed strings (the origin check compares hosts)."""
+    udir = os.path.join(ctx.rundir, "urls")
+    os.makedirs(udir, exist_ok=True)
+    b = os.path.join(ROOT, "tools", "bin", "harness")
+    rc, out, dt = sh([b, "urls", "-out", udir, "-seed", str(ctx.seed), "-tier", ctx.tier], timeout=600)
+    if rc != 0:
+        ctx.coverage["url_model"] = {"ran": False, "why": out[-300:]}
+        return False
+    shutil.copyfile(os.path.join(ROOT, "coq", "Run", "UrlCases.v"), os.path.join(udir, "cases.v"))
+    base = ["coqc", "-Q", os.path.join(ROOT, "coq"), "Verif", "-Q", udir, "Run"]
+    rc1, out1, _ = sh(base + ["observed_urls.v"], cwd=udir, timeout=900)
+    rc2, out2, _ = sh(base + ["cases.v"], cwd=udir, timeout=900) if rc1 == 0 else (1, out1, 0)
+    if rc2 != 0:
+        ctx.violation("C06:url-eval", "the comparison of net/url with the model could not be evaluated", {"kind": "cases-eval", "output": (out1 + out2)[-2000:], "unchecked": "correspondence C06 urls"}, nofail=True)
+        return False
+    defs = parse_defs(out2)
+    bad = re.findall(r'\("((?:[^"]|"")*)", "(\w+)"\)', defs.get("url_bad", ""))
+    n = int(re.sub(r"\D", "", defs.get("n_urls", "0").split(":")[0]) or 0)
+    ctx.coverage["url_model"] = {"ran": True, "strings": n, "disagreements": len(bad), "examples": bad[:5]}
+    if bad:
+        s0, what = bad[0]
+        ctx.violation("C06:url-model:%s" % what, "net/url and the model's reading of IRIs (has_scheme / host_of) disagree on %r (%s): the origin check of the model is not the code's there" % (s0, what),
+                      {"kind": "correspondence", "projection": "C06 net/url vs has_scheme / host_of", "string": s0, "what": what, "count": len(bad)}, nofail=True)
+    return False
+
+
 def check_C06(ctx):
     base = diverge_classify("C06")
     def classify(name, fields, run):
@@ -690,8 +717,8 @@ def check_C06(ctx):
         return base(name, fields, run)
     return pub_property(ctx, "C06", "Properties/C06.v",
                         ["Pub/Util.v must_origin_match / must_actors_match / host_of, Pub/SideEffect.v authorize_post_inbox / actor_iris, Pub/Fed.v update / delete / accept / undo, Pub/Monitors.v acc_step / seen_step",
-                         "modelled, not verified: url.Parse's host extraction is the model's host_of (authority without userinfo, compared as written), tied by replay on hosts differing in port, case and sub-domain"],
-                        {"monitors": ["authority_bad", "diverge_bad"], "classify": classify,
+                         "modelled, not verified: url.Parse's verdict and host extraction are the model's has_scheme / host_of (scheme syntax, percent escapes, control characters, blanks in the authority; authority without userinfo, compared as written), tied by a direct comparison with net/url on generated and malformed strings (harness urls) and by replay on hosts differing in port, case and sub-domain"],
+                        {"monitors": ["authority_bad", "diverge_bad"], "classify": classify, "extra": c06_urls,
                          "rule": "hosts equal / different / differing in port, case or sub-domain for the activity id and 1..3 object ids as IRIs or embedded; Accept with the stored Follow present, absent, of another type, by another actor, lacking the accepting actor, embedded or by IRI; Undo with equal / subset / superset / disjoint actor sets; 1..3 actors as IRI or embedded, blocked or not; single faults"},
                         family_filter=lambda f: f.startswith(("inbox:", "authority:", "shape:inbox:")),
                         run_specs=[("shape", SHAPE[ctx.tier]), ("authority", ["-families", "authority", "-n", "12" if ctx.tier == "quick" else "200", "-faults", "none", "-maxruns", "20000"]), ("std", PUB_STD[ctx.tier])])
